@@ -53,3 +53,46 @@ def corners(lb, ub):
     """2^n corners in itertools.product([0,1]) order"""
     n = len(lb)
     return [[(ub[k] if bit else lb[k]) for k, bit in enumerate(bits)] for bits in itertools.product([0, 1], repeat=n)]
+
+
+def _is_scalar_domain(domain):
+    return np.ndim(domain) == 0
+
+
+def capture_spec(F, S, domain, trapz=True):
+    """Contract (C01) of calculate_capture as a spec function: object/float arrays in, array out.
+    out[..., i, j] = Trap(domain, S[..., i, :] * F[..., j, :]); plain broadcasting if an input is 1-D."""
+    F = np.asarray(F)
+    S = np.asarray(S)
+    nd = F.shape[-1]
+    if S.shape[-1] != nd:
+        raise ValueError("operands could not be broadcast together (domain axis)")
+    if _is_scalar_domain(domain):
+        xs = grid_from_dx(domain, nd)
+        rule = (lambda ys: trap(xs, ys)) if trapz else (lambda ys: rect(domain, ys))
+    else:
+        d = np.asarray(domain)
+        if d.shape != (nd,):
+            raise ValueError("domain length mismatch")
+        xs = [d[k] for k in range(nd)]
+        rule = lambda ys: trap(xs, ys)
+    fs, ss = F.shape[:-1], S.shape[:-1]
+    dt = object if (F.dtype == object or S.dtype == object or np.asarray(domain).dtype == object) else float
+    if len(fs) >= 1 and len(ss) >= 1:
+        bF, bS = fs[:-1], ss[:-1]
+        batch = tuple(np.broadcast_shapes(bF, bS))
+        shape = batch + (ss[-1], fs[-1])
+        out = np.empty(shape, dtype=dt)
+        for idx in np.ndindex(*shape):
+            b, i, j = idx[:-2], idx[-2], idx[-1]
+            Fi = F[bcast_index(b, bF, batch) + (j,)]
+            Si = S[bcast_index(b, bS, batch) + (i,)]
+            out[idx] = rule([Si[k] * Fi[k] for k in range(nd)])
+        return out
+    shape = tuple(np.broadcast_shapes(fs, ss))
+    out = np.empty(shape, dtype=dt)
+    for idx in (np.ndindex(*shape) if shape else [()]):
+        Fi = F[bcast_index(idx, fs, shape)]
+        Si = S[bcast_index(idx, ss, shape)]
+        out[idx] = rule([Si[k] * Fi[k] for k in range(nd)])
+    return out if shape else out[()]
